@@ -232,13 +232,19 @@ func runProperty(repo, verif, prop string, timeoutMs int, thorough bool) *checkR
 	// second pass: obligations left undecided (no answer within the budget while every function of the property was
 	// competing for the cores) are tried again, one function at a time, with three times the budget. A refutation
 	// ("sat") is final; only "unknown"/"timeout" get the second chance.
+	openKnown := map[string]bool{}
+	for _, k := range loadKnownFindings(verif) {
+		if k.Status == "open" {
+			openKnown[k.Obligation] = true
+		}
+	}
 	for i := range ts {
 		if results[i].Err != "" || vcs[i] == nil {
 			continue
 		}
 		open := 0
 		for _, o := range vcs[i].obls {
-			if !o.Cover && o.Status != "unsat" && o.Status != "sat" {
+			if !o.Cover && o.Status != "unsat" && o.Status != "sat" && !openKnown[o.Name] {
 				open++
 			}
 		}
